@@ -177,8 +177,16 @@ pub fn run_pairing(a: &Args, out: &mut Out) {
                 // a prepared value reused for several G1 inputs, in two orders, while the source variable is overwritten
                 let tq = if kb.is_zero() { pick_ztag(&mut rng) } else { pick_tag(&mut rng) };
                 let mut qv = g2_rep(&mut rng, q0, tq);
-                let ks: Vec<Fr> = (0..3).map(|_| pick_scalar(&mut rng, &pool)).collect();
-                let ps: Vec<G1> = ks.iter().map(|s| { let t = pick_tag(&mut rng); g1_rep(&mut rng, G1::one() * *s, if s.is_zero() { "ZN" } else { t }) }).collect();
+                let mut ks: Vec<Fr> = (0..3).map(|_| pick_scalar(&mut rng, &pool)).collect();
+                let mut ps: Vec<G1> = ks.iter().map(|s| { let t = pick_tag(&mut rng); g1_rep(&mut rng, G1::one() * *s, if s.is_zero() { "ZN" } else { t }) }).collect();
+                if k % 2 == 0 && !ks[0].is_zero() {
+                    // consecutive inputs that share their RAW x and y but denote different elements: (x, y, z), (x, y, -z) = -P, (x, y, 0) = O
+                    let p0 = ps[0];
+                    ps[1] = G1::new(p0.x(), p0.y(), -p0.z());
+                    ks[1] = -ks[0];
+                    ps[2] = G1::new(p0.x(), p0.y(), Fq::zero());
+                    ks[2] = Fr::zero();
+                }
                 let kss: Vec<Value> = ks.iter().map(|s| b(&s.to_slice())).collect();
                 let pss: Vec<Value> = ps.iter().map(|p| p.jac()).collect();
                 out.call("prep.reuse", json!({"q": qv.jac(), "kb": b(&kb.to_slice()), "ps": pss, "kas": kss}), || {
